@@ -925,9 +925,11 @@ class Interp:
             self.index_facts(base.origin)
             return PyNum(base.mag(base.origin.tmin if key.z.as_long() == 0 else base.origin.tmax))
         if isinstance(base, KDict):
+            if isinstance(base.keys, KeyStub) and base.keys.name is None: raise SymRaise("KeyError", "empty dict")
             k = self.world.key_index(self, base.keys, key)
             for ok, ov in reversed(base.overlay):
                 if self.eng.decide(k == ok): return ov
+            if base.dom is not None and not self.eng.decide(base.dom(k)): raise SymRaise("KeyError", "no entry for this key")
             return base.base(k)
         if isinstance(base, QList) and isinstance(key, PyNum):
             self.lib_pre("list index in range", z3.And(key.z >= 0, key.z < base.n))
@@ -955,6 +957,10 @@ class Interp:
 
     def store_subscript(self, base, key, v):
         if isinstance(base, KDict):
+            if isinstance(base.keys, KeyStub) and base.keys.name is None and isinstance(key, ModelObj): base.keys.name = key.family
+            if isinstance(v, (Expl, ExplU)) and getattr(base, "explainable_dict", False):
+                vv = self.resolve(v) if isinstance(v, ExplU) else v
+                self.eng.oblige(f"attach/dict entry: value attached to the model carries a label", vv.label.nonempty, kind="post")
             base.overlay.append((self.world.key_index(self, base.keys, key), v)); return
         if isinstance(base, PArr) and isinstance(key, PyNum) and isinstance(v, PyNum):
             old, k_, val = base.at, key.z, v.r
@@ -1708,15 +1714,23 @@ class Interp:
             KK = z3.Int("key!")      # skolem key
             saved = list(eng.run.pc)
             eng.assume(z3.And(KK >= 0, KK < want.keys.n))
-            g = got.base(KK)
-            for ok, ov in got.overlay:
-                pass
+            def has(d):
+                f_ = z3.BoolVal(True) if d.dom is None else d.dom(KK)
+                return z3.Or([KK == ok for ok, ov in d.overlay] + [f_])
+            if got.dom is not None or want.dom is not None:
+                eng.oblige(f"{name}/keys: exactly the same keys have an entry", has(got) == has(want))
+                if not eng.decide(has(want)):
+                    eng.run.pc[:] = saved; return
             # value of the code-level dict at the skolem key: last matching write, else base
-            def lookup(d):
+            # when the key is the one of a write, both sides are read at the index term of that write (equal to the skolem key on
+            # this path): ghost functions are named after the text of their summand, so the same entry must be spelled the same way
+            def lookup(d, at):
                 for ok, ov in reversed(d.overlay):
-                    if eng.decide(KK == ok): return ov
-                return d.base(KK)
-            self.equiv(lookup(got), lookup(want), name + "[key]")
+                    if eng.decide(KK == ok): return ov, ok
+                return d.base(at), at
+            gv, gi = lookup(got, KK)
+            wv, _ = lookup(want, gi)
+            self.equiv(gv, wv, name + "[key]")
             eng.run.pc[:] = saved
             return
         if isinstance(want, Opt):
